@@ -110,6 +110,19 @@ pub fn gen_spec(rng: &mut Rng, kind: u64, quick: bool) -> PackSpec {
             }
             items.push(CItem { data: rng.bytes(10), hint: Hint::No, src: Src::File });
         }
+        6 => {
+            // the deduplicating adder on contents below, at and above its 4 MiB buffering threshold
+            label.push_str("dedup-big");
+            let a = rng.low_entropy(4 * 1024 * 1024);
+            let extra = 1 + rng.below(5000) as usize;
+            let b = rng.low_entropy(4 * 1024 * 1024 + extra);
+            let c = rng.low_entropy(4 * 1024 * 1024 - 1);
+            let small = rng.bytes(100);
+            let hint = *rng.pick(&[Hint::No, Hint::Yes]);
+            for d in [&small, &a, &b, &a, &c, &small, &b, &c, &a] {
+                items.push(CItem { data: d.clone(), hint, src: src_of(rng) });
+            }
+        }
         2 => {
             // several compressed clusters of 4 MiB
             label.push_str("cluster-size-split");
@@ -494,6 +507,8 @@ pub fn run(ctx: &mut Ctx) {
             1 => 1,
             2 => 2,
             5 => 5,
+            6 => 6,
+            c if !ctx.quick() && c % 190 == 8 => 6,
             c if !ctx.quick() && c % 170 == 7 => 5,
             c if c % 9 == 3 => 3,
             c if c % 9 == 4 => 4,
@@ -505,6 +520,11 @@ pub fn run(ctx: &mut Ctx) {
         if kind == 2 {
             spec.comp = *crng.pick(&[Comp::Zstd(1), Comp::Lz4(1)]);
             spec.packaging = None;
+        }
+        if kind == 6 {
+            spec.comp = *crng.pick(&[Comp::None, Comp::Zstd(1), Comp::Lz4(1)]);
+            spec.packaging = None;
+            spec.dedup = true;
         }
         if kind == 5 {
             spec.packaging = None;
